@@ -70,6 +70,9 @@ def instances(tier, seed):
                 for order in ("names", "reversed"):
                     yield {"kind": "collision", "name": name, "tset": tset, "N": N, "placement": placement,
                            "target": tname, "dict_order": order}
+    # (exact chains are built for single-topology 2-clique networks only: with two topologies one proposal iteration
+    #  contains an unbounded free-retry loop, and single-topology triangle scenarios with distinguishable classes need
+    #  >= 15 edges, whose closures are out of reach; run_dtmc keeps a "dtmc-multi" mode for experiments)
     for i, sc in enumerate(DTMC_SCENARIOS):
         if tier not in sc[4]:
             continue
@@ -211,6 +214,8 @@ def run_scenario(inst, tier, res):
         res.transitions += stats["transitions"]
         res.revalidated += stats["rechecked"]
         res.count("state_target_pairs", len(graph))
+        res.count("diagnostic_scenario_thresholds_seen", stats.get("thresholds_seen", 0))
+        res.count("diagnostic_scenario_thresholds_differing_from_documented_ratio", stats.get("thresholds_off", 0))
         res.count(f"scenario_closure:{inst['name']}:{tname.split(':')[0]}", len(seen))
         for p in problems:
             pprop, key, msg, choices, hist = p
@@ -254,7 +259,7 @@ def proposed_state_c2(state, e0, e1):
     return norm_ids((state[0], tuple(sorted(edges))))
 
 
-def one_iteration(state, names, target, search_limit):
+def one_iteration(state, names, target, search_limit, multi=False):
     """Explore exactly one proposal iteration of rewire() from `state`.
 
     Returns (proposals, hook_fired): proposals = list of (S', q, t, p_acc) with q = exact probability of proposing
@@ -309,7 +314,17 @@ def one_iteration(state, names, target, search_limit):
             cur = rej.setdefault(prefix, [0, thr, guess])
             cur[0] += leaf.prob
         else:
-            acc[prefix] = (norm_ids(mcmc.coarse(leaf.outcome)), leaf.prob, thr, guess)
+            post = mcmc.coarse(leaf.outcome)
+            if multi:
+                # known open finding: ids of the two swapped corners are crossed; continue from the repaired state
+                shapes0 = mcmc.motif_shapes(state)
+                if mcmc.check_state_invariants(state, shapes0, post, names, target, pre=state):
+                    rep = mcmc.uncross(state, post)
+                    if rep is not None and not mcmc.check_state_invariants(state, shapes0, rep, names, target,
+                                                                            pre=state):
+                        post = rep
+                guess = None
+            acc[prefix] = (norm_ids(post), leaf.prob, thr, guess)
 
     old = getattr(mod, "_VERIF_HOOK", "absent")
     if old == "absent":
@@ -412,6 +427,7 @@ def run_dtmc(inst, tier, res):
     state, names = c11.initial_state(inst["tset"], inst["N"], inst["placement"])
     target = mcmc.make_target(state, names, inst["target_kind"])
     sl = inst["search_limit"]
+    multi = inst["kind"] == "dtmc-multi"
     # closure by BFS over the union of the real successors and the reference kernel's successors
     state = norm_ids(state)
     order = [state]
@@ -423,7 +439,7 @@ def run_dtmc(inst, tier, res):
     while i < len(order):
         s = order[i]
         i += 1
-        props, ok = one_iteration(s, names, target, sl)
+        props, ok = one_iteration(s, names, target, sl, multi=multi)
         if not ok:
             res.count("dtmc_not_decidable_hook_missing")
             res.flags.add("hook-missing")
@@ -432,7 +448,15 @@ def run_dtmc(inst, tier, res):
             return
         res.states += 1
         leaves_total[0] += LAST_LEAVES[0]
-        racc, rcnt, ranti = reference_moves_c2(s, names, target)
+        if multi:
+            racc, rcnt, ranti = {}, {}, {}
+            for post, q, thr, pacc in props:
+                rr = reference_ratio(s, post, names, target)
+                racc[post] = racc.get(post, 0.0) + float(q) * min(1.0, rr)
+                rcnt[post] = rcnt.get(post, 0.0) + float(q)
+                ranti[post] = ranti.get(post, 0.0) + float(q) * (min(1.0, 1.0 / rr) if rr > 0 else 1.0)
+        else:
+            racc, rcnt, ranti = reference_moves_c2(s, names, target)
         for post in list(racc) + [p[0] for p in props]:
             if post not in index:
                 if len(order) >= 4000:
@@ -558,7 +582,7 @@ def run_instance(inst, tier):
     elif inst["kind"] == "scenario":
         run_scenario(inst, tier, res)
     else:
-        run_dtmc(inst, tier, res)
+        run_dtmc(inst, tier, res)   # kinds "dtmc" and "dtmc-multi"
     return res
 
 
